@@ -18,7 +18,7 @@ RULE = ('Histories of density/diameter assignments (single type, list or tuple o
 ASSUMPTIONS = ['values are positive finite numbers (the documented domain)',
                'pair/site/sigma are compared bit-for-bit (one commutative float operation), total and volume to 8 ulp']
 
-NAMES = ['A', 'B', 'C', 'poly', 'nano', 'solvent']
+NAMES = ['A', 'B', 'C', 'poly', 'nano', 'solvent', 'AB', 'A B', '1', 'a']
 EPS = np.finfo(float).eps
 
 
